@@ -129,6 +129,35 @@ pub fn gen_case(r: &mut Prng, big: bool) -> Case {
             case.handlers[target].actions.push(inner);
         }
     }
+    finish(r, case)
+}
+
+/// a program more than 64 levels deep (a left-deep operator chain, or nested lists with an operator
+/// application at every level): containment must not depend on how deep the failing handler sits
+pub fn deep_case(r: &mut Prng) -> Case {
+    let mut case = Case::new("C15");
+    case.slots.push(CtxSpec { vars: vec![("x".into(), Val::int(1)), ("w".into(), Val::s("xyz"))], funcs: vec![] });
+    let h = case.add_handler(HandlerSpec::plain(HKind::Infix, Ret::Const(Val::int(1))));
+    case.pre.push(Op::RegIn { name: "dp".into(), prec: 105, setter: false, right: false, h });
+    let n = 70 + r.range(0, 25);
+    let e = if r.chance(1, 2) {
+        let mut e = lit_i(0);
+        for i in 1..=n {
+            e = bin("dp", e, lit_i(i));
+        }
+        e
+    } else {
+        let mut e = bin("dp", lit_i(1), lit_i(2));
+        for i in 0..n {
+            e = Expr::List(vec![bin("dp", lit_i(i), lit_i(i)), e]);
+        }
+        e
+    };
+    case.pre.push(Op::Exec { prog: Prog::Stmts(vec![bin("=", rf("r"), e), rf("x")]), ctx: CtxRef::Slot(0) });
+    finish(r, case)
+}
+
+fn finish(r: &mut Prng, mut case: Case) -> Case {
     if r.chance(1, 4) {
         // the faulted evaluation stays on the main task: the follow-up then runs on the SAME thread
         // (whatever a failed evaluation leaves behind in its own thread shows there)
@@ -289,6 +318,7 @@ impl Prop for C15 {
                 "bystander_overlaps_fault",
                 "fault_storm",
                 "fault_inside_reentrant_evaluation",
+                "program_deeper_than_64_levels",
             ],
         }
     }
@@ -325,7 +355,11 @@ impl Prop for C15 {
                 Judged::Held(_) => vec![],
             };
         }
-        let base = Arc::new(gen_case(&mut r, tier == Tier::Thorough));
+        let deep = idx % 64 == 62;
+        let base = Arc::new(if deep { deep_case(&mut r) } else { gen_case(&mut r, tier == Tier::Thorough) });
+        if deep {
+            rt.probe("program_deeper_than_64_levels");
+        }
         rt.case_seen(base.fingerprint());
         if let Err(why) = preflight(&base, rt) {
             rt.skip(&format!("preflight: {}", why.split_whitespace().take(3).collect::<Vec<_>>().join(" ")));
@@ -378,7 +412,20 @@ impl Prop for C15 {
             "fault_positions": n,
             "fault_kinds": ["Err", "Panic"],
         }));
-        for k in 0..n {
+        // every invocation index; for the (rare) programs with more than 40 invocations: the first, the last,
+        // the middle one and five seeded ones
+        let ks: Vec<usize> = if n <= 40 {
+            (0..n).collect()
+        } else {
+            let mut v = vec![0, n / 2, n - 1];
+            for _ in 0..5 {
+                v.push(sr.usize(n));
+            }
+            v.sort();
+            v.dedup();
+            v
+        };
+        for k in ks {
             for kind in [FaultKind::Err, FaultKind::Panic] {
                 let mut c = (*base).clone();
                 c.fault = Some(Fault::once(eval_task, k0 + k, kind));
